@@ -1,90 +1,6 @@
-import MithrilModel.Proofs
-import MithrilModel.Properties.C09
-import MithrilModel.Properties.C04
+import MithrilModel.Properties.C11
 import MithrilModel.ProverProofs
 import MithrilModel.ClientMsg
-/-!
-# C11 — Certified transaction, block and stake sets are reported exactly as signed
-
-Model: `Proofs.verifyLegacy` / `verifyV2` over the `MKMapProof` model of C09, the leaf encoders
-(`Leaf.txLeaf`, `Proofs.stakeLeaf`), the protocol-message digest of C04.
--/
-namespace C11
-open Proofs MkProof Leaf
-
-/-- **set soundness (legacy transaction-hash sets)**: accepted ⇒ at least one part, every part's nested
-proof verifies, ALL parts prove under the single returned root, every reported item's leaf is contained in
-its part's proof. With `C09_map_sound` every contained non-merge value is a committed leaf of that root. -/
-theorem C11_set_sound {α : Type} [DecidableEq α] (merge : α → α → α)
-    (parts : List (List α × MapProof α)) (root : α) (h : verifyLegacy merge parts = .ok root) :
-    parts ≠ [] ∧ ∀ part ∈ parts, part.2.verify merge = true ∧ part.2.master.root = root ∧
-      ∀ l ∈ part.1, part.2.contains l = true := verifyLegacy_sound merge parts root h
-
-/-- the v2 format (one part for transactions, one for blocks) -/
-theorem C11_set_sound_v2 {α : Type} [DecidableEq α] (merge : α → α → α)
-    (ls : List α) (p : MapProof α) (root : α) (h : verifyV2 merge (some (ls, p)) = .ok root) :
-    p.verify merge = true ∧ p.master.root = root ∧ ∀ l ∈ ls, p.contains l = true :=
-  verifyV2_sound merge ls p root h
-
-open ExprTree in
-/-- **every reported item is committed under the single returned root**: composing acceptance with the
-soundness of the executable nested verifier (C09): if the returned root is the value of the committed
-tree `t` (leaves not merge values, `merge` injective), every reported item leaf that is not itself a merge
-value is a leaf of `t` -/
-theorem C11_set_committed {α : Type} [DecidableEq α] (merge : α → α → α)
-    (hinj : ∀ a b c d, merge a b = merge c d → a = c ∧ b = d)
-    (parts : List (List α × MapProof α)) (root : α) (h : verifyLegacy merge parts = .ok root)
-    (t : E α) (hr : root = eval merge t) (hT : ∀ a ∈ leaves t, ¬ IsMerge merge a) :
-    ∀ part ∈ parts, ∀ l ∈ part.1, ¬ IsMerge merge l → l ∈ leaves t := by
-  intro part hp l hl hnm
-  obtain ⟨hv, hroot, hc⟩ := (verifyLegacy_sound merge parts root h).2 part hp
-  exact C09.C09_map_exec_sound merge hinj part.2 l hv (hc l hl) t (by rw [hroot, hr]) hT hnm
-
-/-- a response without any certified item is rejected -/
-theorem C11_empty_rejected {α : Type} [DecidableEq α] (merge : α → α → α) :
-    verifyLegacy merge ([] : List (List α × MapProof α)) = .error .noCertifiedItem ∧
-    verifyV2 merge (none : Option (List α × MapProof α)) = .error .noCertifiedItem := ⟨rfl, rfl⟩
-
-/-- parts whose proofs belong to different roots are rejected -/
-theorem C11_roots_must_agree {α : Type} [DecidableEq α] (merge : α → α → α)
-    (l1 l2 : List α) (p1 p2 : MapProof α) (hne : p1.master.root ≠ p2.master.root) :
-    ∀ r, verifyLegacy merge [(l1, p1), (l2, p2)] ≠ .ok r := roots_must_agree merge l1 l2 p1 p2 hne
-
-/-- the `Tx/<tx>/<block>/<n>/<slot>` leaf is injective on items whose fields contain no `/`
-(hex hashes, decimal numbers) -/
-theorem C11_leaf_injective {t b n s t' b' n' s' : List Char}
-    (h1 : '/' ∉ t) (h2 : '/' ∉ b) (h3 : '/' ∉ n) (h4 : '/' ∉ s)
-    (h1' : '/' ∉ t') (h2' : '/' ∉ b') (h3' : '/' ∉ n') (h4' : '/' ∉ s')
-    (h : txLeaf t b n s = txLeaf t' b' n' s') : t = t' ∧ b = b' ∧ n = n' ∧ s = s' :=
-  txLeaf_inj h1 h2 h3 h4 h1' h2' h3' h4' h
-
-/-- observation: with `/` inside a hash field two different items share a leaf (block hashes are
-unvalidated strings) -/
-theorem C11_leaf_slash_note :
-    txLeaf "T".toList "B/1/2".toList "3".toList "4".toList = txLeaf "T".toList "B".toList "1".toList "2/3/4".toList :=
-  txLeaf_slash_counterexample
-
-/-- KNOWN FINDING: the stake-distribution leaf `pool_id ‖ decimal stake` is not injective:
-`("pool1abc7", 123)` and `("pool1abc", 7123)` have the same leaf -/
-theorem C11_stake_leaf_counterexample :
-    stakeLeaf "pool1abc7".toList 123 = stakeLeaf "pool1abc".toList 7123 ∧
-    ("pool1abc7".toList, 123) ≠ ("pool1abc".toList, 7123) := by decide
-
-/-- … it is injective when both pool identifiers have the same length (bech32 pool ids do) -/
-theorem C11_stake_partial (p p' : List Char) (s s' : Nat) (hl : p.length = p'.length)
-    (h : stakeLeaf p s = stakeLeaf p' s') : p = p' ∧ natDigits s = natDigits s' :=
-  List.append_inj h hl
-
-/-- message binding: the recomputed message (certificate's own message with root / block number /
-offset overwritten) has the certificate's signed digest only if the overwritten values are the signed
-ones — for messages with the same keys, by C04 -/
-def C11_message_binding := @C04.C04_pm_single_value
-
-/-- non-vacuity: a one-part response over a single-leaf tree is accepted (string-free instance) -/
-example : setVerify C09.pairM [5] (MapProof.mk { root := 5, leaves := [(0, 5)], size := 1, items := [] } []) = true := by
-  decide +kernel
-
-end C11
 
 /-! ## the aggregator's provers (`Prover.lean`) and the client's message builder (`ClientMsg.lean`) -/
 namespace C11
@@ -227,14 +143,6 @@ example : (∀ k, (k + 1) * LEN ≤ 5 + 1 → full nodes2 ((List.range 6).map bl
 example : proveL ((List.range 21).map blk) (some [(0, full nodesL ((List.range 21).map blk) 0)]) 14 [2003, 2016, 2003] =
     .ok [2003, 2003] := by decide +kernel
 
-/-- grounding of the abstraction used by `Prover.lean` (a tree is named by its ordered leaves): two leaf
-lists with the same `MKTree` root are equal when the merge is injective and no leaf is a merge value
-(`MmrBuild.root_injective`); the converse — same leaves, same root — is functionality -/
-theorem C11_range_root_faithful {α : Type} (m : α → α → α) (hinj : ∀ a b c d, m a b = m c d → a = c ∧ b = d)
-    (ls ls' : List α) (hl : ∀ a ∈ ls, ¬ ExprTree.IsMerge m a) (hl' : ∀ a ∈ ls', ¬ ExprTree.IsMerge m a)
-    (r : α) (h : MmrBuild.root m ls = some r) (h' : MmrBuild.root m ls' = some r) : ls = ls' :=
-  MmrBuild.root_injective m hinj ls ls' hl hl' r h h'
-
 /-! ### the client: from the verified response to `match_message` -/
 
 /-- **message binding of the client's builders**: `match_message` on the message rebuilt from the response
@@ -276,3 +184,8 @@ example : ClientMsg.rebuild [(2, "ff".toList), (5, "3".toList), (6, "42".toList)
   rcases hp with rfl | rfl | rfl | rfl <;> exact ⟨by decide, by decide⟩
 
 end C11
+#print axioms C11.C11_prover_items_under_signed_map
+#print axioms C11.C11_prover_not_refused
+#print axioms C11.C11_client_match_values
+#print axioms C11.C11_legacy_prover_exact
+#print axioms C11.C11_prover_inside_range_counterexample
